@@ -8,6 +8,7 @@
 // Observation = flat list of integers (decimal strings, values are unbounded sdk Ints):
 //
 //	block(initial state after NewTree) ; for every op: status ; if status==0 block(state after op) else stop
+//	(no block after the first `quiet` ops of a case: long insertion prefixes for large fan-outs)
 //
 // block = gets | splits | subsets | prefix sums | total | forward iteration | reverse iteration | ranged
 // iterations | raw store dump (decoded with the exported Node / Leaf types).  See props/c16.py (parse_block)
@@ -49,6 +50,7 @@ type tcase struct {
 	Q        []string    `json:"q"`        // hex keys: split / subset / prefix queries for all (pairs of) these
 	Ranges   [][2]string `json:"ranges"`   // hex pairs: ranged forward + reverse iteration [begin, end)
 	Ops      []opT       `json:"ops"`
+	Quiet    int         `json:"quiet"` // the first Quiet ops are applied and their status reported, but no block is observed after them
 }
 
 type obs struct {
@@ -327,7 +329,7 @@ func runCase(c *tcase) (o obs) {
 		return
 	}
 	r.block(t, kv, c, uni, q)
-	for _, op := range c.Ops {
+	for i, op := range c.Ops {
 		var key []byte
 		if op.K != nil {
 			key = unhex(*op.K)
@@ -359,7 +361,9 @@ func runCase(c *tcase) (o obs) {
 		if st != stOK {
 			return // the history ends at the first panicking mutation
 		}
-		r.block(t, kv, c, uni, q)
+		if i >= c.Quiet {
+			r.block(t, kv, c, uni, q)
+		}
 	}
 	return
 }
